@@ -26,3 +26,79 @@ def import_rules(ctx, r, prop, only=None, prefix=True):
                 r.ok(c, inst["detail"], inst["where"])
                 n += 1
     return n
+
+
+MUTABLE_CALLS = {"dict", "list", "set", "defaultdict", "OrderedDict", "collections.defaultdict", "collections.OrderedDict", "bytearray"}
+
+
+def rule_per_instance_state(ctx, r, class_keys, why):
+    """No mutable object is shared between instances of a state-holding class: attrs fields use factory=..., never default=<mutable literal>,
+    and no mutable class attribute stands in for an instance field."""
+    import ast
+    idx = ctx.index
+    for key in class_keys:
+        ci = idx.cls(key)
+        con = f"{ci.module.relpath}::{ci.name}"
+        bad = []
+        n = 0
+        for name, _ann, value in ci.fields:
+            n += 1
+            v = value
+            if isinstance(v, ast.Call) and (idx.canon(v.func, ci.module) or "").rsplit(".", 1)[-1] in ("field", "ib", "attrib"):
+                d = next((k.value for k in v.keywords if k.arg == "default"), None)
+                if d is None:
+                    continue
+                v = d
+                if isinstance(v, ast.Call) and (idx.canon(v.func, ci.module) or "").endswith("Factory"):
+                    continue
+            if isinstance(v, (ast.Dict, ast.List, ast.Set, ast.ListComp, ast.DictComp, ast.SetComp)):
+                bad.append((name, ast.unparse(v)))
+            elif isinstance(v, ast.Call) and (idx.canon(v.func, ci.module) or "").replace("builtins.", "") in MUTABLE_CALLS:
+                bad.append((name, ast.unparse(v)))
+        if bad:
+            for name, txt in bad:
+                r.violation(f"{con}.{name}", f"field `{name}` of {ci.name} defaults to the mutable object `{txt}`, created once and shared by every instance in the process: {why}",
+                            ci.where)
+        else:
+            r.ok(con, f"{n} field(s): mutable state is created per instance (factory), never shared through a default", ci.where)
+
+
+def rule_fresh_per_call(ctx, r, class_key, why):
+    """Every construction of the class happens inside a function body (evaluated per call), never at import time or in a parameter default."""
+    import ast
+    idx = ctx.index
+    ci = idx.cls(class_key)
+    target = f"{ci.module.name}.{ci.name}"
+    n = 0
+    for mod in idx.repo.modules.values():
+        for node in ast.walk(mod.tree):
+            if not (isinstance(node, ast.Call) and isinstance(node.func, (ast.Name, ast.Attribute)) and idx.canon(node.func, mod) == target):
+                continue
+            n += 1
+            # climb: inside a function body?  (defaults and decorators belong to the enclosing scope)
+            cur, inside, via = node, False, None
+            while getattr(cur, "_parent", None) is not None:
+                par = cur._parent
+                if isinstance(par, (ast.FunctionDef, ast.AsyncFunctionDef, ast.Lambda)):
+                    if isinstance(par, ast.Lambda) or cur in par.body:
+                        inside = True
+                        break
+                    via = f"a default value or decorator of {par.name}()"
+                if isinstance(par, ast.arguments):
+                    via = "a parameter default"
+                cur = par
+            where = f"{mod.relpath}:{node.lineno}"
+            if inside:
+                r.ok(f"{mod.relpath}::{ci.name}()@{_enclosing(node)}", "constructed per call", where)
+            else:
+                r.violation(f"{mod.relpath}::{ci.name}()@{via or 'module level'}", f"{ci.name} is constructed once at import time ({via or 'module level'}) and then shared by every call: {why}", where)
+    return n
+
+
+def _enclosing(node):
+    cur = node
+    while getattr(cur, "_parent", None) is not None:
+        cur = cur._parent
+        if hasattr(cur, "name") and hasattr(cur, "body"):
+            return cur.name
+    return "<module>"
